@@ -153,7 +153,21 @@ double realPrecision, double valueRangeSize, double medianValue_d)
 				type[i] = exe_params->intvRadius-state;
 				pred = pred - state*interval;
 			}
-			decData[i] = pred;
+
+			//double-check the prediction error in case of machine-epsilon impact (as the float kernel does)
+			if(fabs(curData-pred)>realPrecision)
+			{
+				type[i] = 0;
+				compressSingleDoubleValue(vce, curData, realPrecision, medianValue, reqLength, reqBytesLength, resiBitsLength);
+				updateLossyCompElement_Double(vce->curBytes, preDataBytes, reqBytesLength, resiBitsLength, lce);
+				memcpy(preDataBytes,vce->curBytes,8);
+				addExactData(exactMidByteArray, exactLeadNumArray, resiBitArray, lce);
+				decData[i] = vce->data;
+			}
+			else
+			{
+				decData[i] = pred;
+			}
 			continue;
 		}
 
